@@ -15,7 +15,6 @@ Classifier (DESIGN 1.7 explain-by-quirk): for a discrepancy the smallest subset 
 the reference reproduces ALL observations of the query gives the violation key "quirk|a+b"; if no subset does:
 "unexplained|<level>|<matching types>".
 """
-import gc
 import itertools
 import json
 import logging
@@ -53,6 +52,10 @@ REQUIRE = {"queries": 3000, "expected_invalid": 200, "selective": 400, "find_han
            "get_handler_runs": 200, "move_handler_runs": 200, "mtype_single": 300, "mtype_universal": 300,
            "mtype_uidlist": 100, "mtype_wildcard": 300, "mtype_range": 100}
 
+# Violation keys: False = one key per minimal explaining subset, "quirk|a+b" (as specified in DESIGN 1.7);
+# True = one key per quirk of that subset, "quirk|a" and "quirk|b" (keeps the number of distinct keys linear).
+SPLIT_QUIRK_KEYS = os.environ.get("C29_SPLIT_QUIRK_KEYS", "0") == "1"
+
 MODEL_UID = {("P", "FIND"): "1.2.840.10008.5.1.4.1.2.1.1", ("P", "MOVE"): "1.2.840.10008.5.1.4.1.2.1.2",
              ("P", "GET"): "1.2.840.10008.5.1.4.1.2.1.3", ("S", "FIND"): "1.2.840.10008.5.1.4.1.2.2.1",
              ("S", "MOVE"): "1.2.840.10008.5.1.4.1.2.2.2", ("S", "GET"): "1.2.840.10008.5.1.4.1.2.2.3"}
@@ -73,7 +76,7 @@ def setup_worker():
 
 def gen_cases(tier, seed):
     if tier == "quick":
-        nblocks, ndb, nq = 64, 5, 60
+        nblocks, ndb, nq = 64, 4, 60
     else:
         nblocks, ndb, nq = 640, 8, 100
     return [{"seed": seed, "block": b, "ndb": ndb, "nq": nq} for b in range(nblocks)]
@@ -677,21 +680,24 @@ def evaluate_db(instances, queries, counters, combos, viols, dkeys):
                 continue
             c["discrepancies"] = c.get("discrepancies", 0) + 1
             if verdict == "quirk":
-                key = "quirk|" + "+".join(info["quirks"])
+                keys = ["quirk|" + "+".join(info["quirks"])]
+                if SPLIT_QUIRK_KEYS:
+                    keys = ["quirk|" + qn for qn in info["quirks"]]
                 for qn in info["quirks"]:
                     c["quirk_" + qn] = c.get("quirk_" + qn, 0) + 1
             else:
-                key = "unexplained|%s|%s" % (query.get("level"), "+".join(_mtypes(query)))
+                keys = ["unexplained|%s|%s" % (query.get("level"), "+".join(_mtypes(query)))]
                 c["unexplained"] = c.get("unexplained", 0) + 1
             size = len(instances) * 100 + len(query["keys"])
-            if key not in viols or viols[key]["size"] > size:
-                viols[key] = {"size": size, "key": key, "detail": json.dumps({
-                    "query": query, "db": _brief_db(instances), "expected": info["expected"],
-                    "observed_search": _brief(search), "observed_handler": handler,
-                    "differs_in": info["diffs"]}, sort_keys=True, default=repr)}
+            for key in keys:
+                if key not in viols or viols[key]["size"] > size:
+                    viols[key] = {"size": size, "key": key, "detail": json.dumps({
+                        "query": query, "db": _brief_db(instances), "expected": info["expected"],
+                        "explained_by": info.get("quirks"),
+                        "observed_search": _brief(search), "observed_handler": handler,
+                        "differs_in": info["diffs"]}, sort_keys=True, default=repr)}
     finally:
         real.close()
-        gc.collect()
 
 
 def run_case(case):
